@@ -10,7 +10,7 @@ func init() {
 			Why: "URL.String() emits RawFragment only while it is a valid encoding of Fragment under path-unescaping; any other decoder makes it re-escape the decoded value",
 			Req: []string{"same($v, $uri.RawFragment) || eq($uri.RawFragment, $v)"}},
 		{ID: "E8.enc.fragment-single-writer", Fn: "op.setFragment", P: []string{"uri", "params"}, Kind: "store", Pat: "store($uri.Fragment, _)", Max: 1},
-		{ID: "E8.enc.fragment-returns-uri", Fn: "op.setFragment", P: []string{"uri", "params"}, Kind: "ret any", Pat: "ret($uri.String())", Max: 1},
+		{ID: "E8.enc.fragment-returns-uri", Fn: "op.setFragment", P: []string{"uri", "params"}, Kind: "ret any", Pat: "ret($uri.String())", Max: 1, Only: true},
 		{ID: "E8.merge.keeps-existing", Fn: "op.mergeQueryParams", P: []string{"uri", "params"}, Kind: "store", Pat: "store($uri.RawQuery, $q.Encode())", Max: 1,
 			Why: "query parameters already present in the registered redirect URI are preserved",
 			Req: []string{"def($q, $uri.Query())"}},
@@ -20,7 +20,7 @@ func init() {
 		{ID: "E8.merge.adds.append", AltOf: "E8.merge.adds", Fn: "op.mergeQueryParams", P: []string{"uri", "params"}, Kind: "store", Pat: "store($q[$name], append($q[$name], $values))", Max: 1,
 			Req: []string{"def($q, $uri.Query())", "inloop($values, $params)"}},
 		{ID: "E8.merge.no-set", Fn: "op.mergeQueryParams", Kind: "call", Pat: "_.Set(__)", Forbid: true, Why: "Set would replace a parameter of the registered URI"},
-		{ID: "E8.merge.returns-uri", Fn: "op.mergeQueryParams", P: []string{"uri", "params"}, Kind: "ret any", Pat: "ret($uri.String())", Max: 1},
+		{ID: "E8.merge.returns-uri", Fn: "op.mergeQueryParams", P: []string{"uri", "params"}, Kind: "ret any", Pat: "ret($uri.String())", Max: 1, Only: true},
 		// response mode selection
 		{ID: "E1.mode.query", Fn: "op.AuthResponseURL", P: []string{"redirectURI", "responseType", "responseMode", "response", "encoder"}, Kind: "ret ok", Pat: "ret(op.mergeQueryParams($uri, $params), nil)",
 			Req: []string{"def($uri, url.Parse($redirectURI), 0)", "ok(url.Parse($redirectURI))", "def($params, httphelper.URLEncodeParams($response, $encoder), 0)", "ok(httphelper.URLEncodeParams($response, $encoder))",
